@@ -88,12 +88,40 @@ func Build(sc SchemaCase, codec string, comp []int, recs []ref.Datum) File {
 
 // BuildSync is Build with a chosen sync marker.
 func BuildSync(sc SchemaCase, codec string, comp []int, recs []ref.Datum, sync [16]byte) File {
+	return BuildEnc(sc, codec, comp, recs, sync, nil)
+}
+
+// SizedBlocks / SizedItemBlocks are writer-side policies for BuildEnc: every array and map block with its byte
+// size; the same with one item per block.
+func SizedBlocks(label string, n int) int {
+	if label == "sizeprefix" {
+		return 1
+	}
+	return 0
+}
+
+func SizedItemBlocks(label string, n int) int {
+	if label == "sizeprefix" {
+		return 1
+	}
+	if label == "blocksize" {
+		return n - 1
+	}
+	return 0
+}
+
+// BuildEnc is BuildSync with the writer-side encoding choices (block splitting, byte sizes) taken by policy.
+func BuildEnc(sc SchemaCase, codec string, comp []int, recs []ref.Datum, sync [16]byte, policy func(label string, n int) int) File {
 	f := File{SC: sc, Codec: codec, Comp: comp, Sync: sync}
 	pos := 0
 	for _, n := range comp {
 		var payload []byte
 		for i := 0; i < n; i++ {
-			payload = append(payload, ref.Encode(sc.Schema, recs[pos])...)
+			if policy != nil {
+				payload = (&ref.Enc{Policy: policy}).Encode(payload, sc.Schema, recs[pos])
+			} else {
+				payload = append(payload, ref.Encode(sc.Schema, recs[pos])...)
+			}
 			pos++
 		}
 		f.Blocks = append(f.Blocks, ref.Block{Count: int64(n), Payload: payload})
